@@ -212,7 +212,7 @@ func verifWorkerInv(pw *Wrapper) bool { return pw.handler != nil && pw.Cfg != ni
 
 //verif:contract (*~/client/proxy.Wrapper).checkWorker
 //verif:props C19
-func verif_checkWorker(pw *Wrapper) {
+func verif_Wrapper_checkWorker(pw *Wrapper) {
 	verif.Requires(pw.handler != nil && pw.Cfg != nil, "constructed_by_NewWrapper")
 	verif.ResetEvents()
 	pw.checkWorker()
